@@ -2,6 +2,7 @@
 mod canon;
 mod cmd_feel;
 mod cmd_model;
+mod cmd_recognize;
 mod cmd_num;
 mod cmd_types;
 mod cmd_ws;
@@ -15,6 +16,7 @@ fn main() {
     "ws" => cmd_ws::main(),
     "guard" => guard::main(),
     "model" => cmd_model::main(),
+    "recognize" => cmd_recognize::main(),
     "num" => cmd_num::main(),
     "types" => cmd_types::main(),
     _ => {
